@@ -201,6 +201,8 @@ class Executor:
         self.keep = []
         self.assume_pc_hook = None
         self.quots = {}
+        from . import stubs as _st
+        self.stub_prefixes = list(_st.DEFAULT_PREFIX_STUBS)
 
     # ------------------------------------------------------------------ memory
     def new_region(self, st, size, kind, name, lazy=False):
@@ -1703,6 +1705,11 @@ class Executor:
         h = self.ufs.get(name) or self.stubs.get(name)
         if h is None and name.startswith('llvm.'):
             h = self.intrinsic(name)
+        if h is None:
+            for pre, hh in self.stub_prefixes:
+                if name.startswith(pre):
+                    h = hh
+                    break
         if h is not None:
             r = h(self, st, args, I)
             if st.frames and st.frames[-1] is fr and fr.fn.blocks[fr.block][fr.idx] is I:
